@@ -56,7 +56,7 @@ func loadPkg(rel string) (*pkgInfo, error) {
 		}
 		files = append(files, af)
 	}
-	info := &types.Info{Types: map[ast.Expr]types.TypeAndValue{}, Defs: map[*ast.Ident]types.Object{}, Uses: map[*ast.Ident]types.Object{}}
+	info := &types.Info{Types: map[ast.Expr]types.TypeAndValue{}, Defs: map[*ast.Ident]types.Object{}, Uses: map[*ast.Ident]types.Object{}, Selections: map[*ast.SelectorExpr]*types.Selection{}}
 	conf := types.Config{Importer: importer.ForCompiler(fset, "source", nil), Error: func(error) {}, FakeImportC: true}
 	pkg, _ := conf.Check(rel, fset, files, info)
 	return &pkgInfo{name: bp.Name, dir: dir, fset: fset, files: files, info: info, pkg: pkg}, nil
@@ -385,6 +385,14 @@ func (p *pkgInfo) emitHelpers(w *bytes.Buffer) {
 				continue
 			}
 			txt, why := p.enumHelper(fd)
+			if txt == "" {
+				// not one of the printable shapes: evaluate the method over the whole receiver type
+				if t2, why2 := p.evalTabulate(fd); t2 != "" {
+					txt = t2
+				} else if why2 != "" {
+					why += "; " + why2
+				}
+			}
 			if txt == "" {
 				skipped = append(skipped, fmt.Sprintf("%s.%s (%s)", tn, fd.Name.Name, why))
 				continue
